@@ -24,6 +24,7 @@
 #define CV_RHSFUNC_FAIL -8
 #define CV_MEM_NULL -21
 #define CV_ILL_INPUT -22
+#define CV_TOO_CLOSE -27
 typedef int (*CVRhsFn)(realtype t, N_Vector y, N_Vector ydot, void *user_data);
 typedef int (*CVLsJacFn)(realtype t, N_Vector y, N_Vector fy, SUNMatrix Jac, void *user_data,
                          N_Vector tmp1, N_Vector tmp2, N_Vector tmp3);
